@@ -102,10 +102,12 @@ class LinNLS(pp.module.NLS):
         A = self.m_A
         if self.tv != 0.0 and t is not None:
             A = A * (1.0 + self.tv * torch.cos(torch.as_tensor(t).to(A.dtype)))
-        return state @ A.mT + input @ self.m_B.mT + self.m_c1
+        d = state.dtype      # the model follows the dtype of the data (float64 everywhere except in single-precision warm-up calls)
+        return state @ A.to(d).mT + input @ self.m_B.to(d).mT + self.m_c1.to(d)
 
     def observation(self, state, input, t=None):
-        return state @ self.m_C.mT + input @ self.m_D.mT + self.m_c2
+        d = state.dtype
+        return state @ self.m_C.to(d).mT + input @ self.m_D.to(d).mT + self.m_c2.to(d)
 
 
 class SmoothNLS(pp.module.NLS):
@@ -367,6 +369,26 @@ def call_filter(ck, monitor, regime, entry, flt, c, wit, t=None, ctor=False, **k
     return ck.call(monitor, regime, entry, lambda: flt(*args, **kw), witness=wit)
 
 
+def warm_up_f32(ck, flt, c, who, t=None, **kw):
+    """History: the same filter object is first used once on single-precision data (a trial run), then judged on double-precision
+    data.  Nothing the first call leaves on the object (memoised weights, buffers, workspaces) may reach the second; the result of
+    the warm-up itself is not judged (a warm-up that raises is noted)."""
+    f = lambda a: T(a).float()
+    args = (f(c["x"]), f(c["y"]), f(c["u"]), f(c["P"]), f(c["Q"]), f(c["R"]))
+    if t is not None:
+        kw = dict(kw, t=torch.tensor(float(t), dtype=torch.float64))
+    try:
+        flt(*args, **kw)
+        ck.mark(f"{who}/judged-after-float32-warm-up")
+    except Exception:  # noqa
+        ck.note_add(f"{who}_float32_warm_up_raised")
+
+
+def key_digest_of(key):
+    import zlib
+    return zlib.crc32(repr(key).encode())
+
+
 def ukf_usable(c, r, dPm):
     """Sigma points of the predicted covariance need its Cholesky factor: judge only where the
     rounding of P^- is far below its smallest eigenvalue."""
@@ -439,7 +461,11 @@ def one_step_linear(ck, rng, c, ks, t=None, who_suffix=""):
     wit = lambda **kw: witness(c, t=t, **kw)
     # ---- EKF
     dx, dP = KR.ekf_err(r, s, c["x"], c["u"], c["P"], c["Q"], c["R"], c["y"])
-    ok, out = call_filter(ck, "ekf_lin.mean", reg, "EKF.forward", pp.module.EKF(model), c, wit, t=t)
+    warm = (int(key_digest_of(key)) % 3 == 0)
+    ekf = pp.module.EKF(model)
+    if warm:
+        warm_up_f32(ck, ekf, c, "ekf", t=t)
+    ok, out = call_filter(ck, "ekf_lin.mean", reg, "EKF.forward", ekf, c, wit, t=t)
     if ok and shape_ok(ck, "ekf_lin.mean", reg, "EKF.forward", out[0], out[1], n, wit):
         alt = r["xm"] + r["K"] @ (KR.ld(c["y"]) - s.g(c["x"], c["u"], t))
         ck.count("ekf_lin.mean", reg, key=key, nontrivial=not trivial)
@@ -467,6 +493,8 @@ def one_step_linear(ck, rng, c, ks, t=None, who_suffix=""):
         regk = f"A:{c['a_kind']}/C:{c['c_kind']}/P:{c['p_kind']}{who_suffix}/k:{kc}"
         witk = lambda **kw: witness(c, t=t, k=k, **kw)
         kw = {} if k is None else {"k": k}
+        if warm:
+            warm_up_f32(ck, ukf, c, "ukf", t=t, **kw)
         ok, out = call_filter(ck, "ukf_lin.mean", regk, "UKF.forward", ukf, c, witk, t=t, **kw)
         if not (ok and shape_ok(ck, "ukf_lin.mean", regk, "UKF.forward", out[0], out[1], n, witk)):
             continue
@@ -1042,7 +1070,7 @@ def run(ck):
                    f"run/{who}/len>=50", f"run/{who}/A:unstable", f"run/{who}/reltol<=1e-9",
                    f"run_par/{who}/judged-at-step-50", f"run/{who}/QR:constructor", f"run/{who}/QR:per-call", f"run/{who}/QR:constructor+override", f"run/{who}/default-step-after-override",
                    *[f"{who}/{q}scale/{s}" for q in "PQR" for s in ("lo", "mid", "hi")])
-    ck.require("run/QR-through-state_dict", "run/QR-through-deepcopy")
+    ck.require("run/QR-through-state_dict", "run/QR-through-deepcopy", "ekf/judged-after-float32-warm-up", "ukf/judged-after-float32-warm-up")
     ck.require("ukf/k/None", "ukf/k/0", "ukf/k/neg", "ukf/k/neg-near--n", "ukf/k/pos", "ukf/k/pos-large",
                "ukf/centre-weight<0", "ukf/centre-weight>=0", "ukf_nl/valid",
                "ekf_nl/C(prior)!=C(pred)", "ekf_nl/reltol<=1e-9", *[f"ekf_nl/n={d}" for d in range(1, 7)],
